@@ -26,6 +26,7 @@ def WatchSt.line (s : WatchSt) (toks : List String) : WatchSt × Option String :
   match toks with
   | ["w.reset"] => ({}, none)
   | ["w.file", _, _] => (s, none)
+  | ["w.nodir", _] => (s, none)   -- a directory that cannot be watched: nothing is ever modified in it
   | ["w.start"] => ({ s with started := true }, some "started")
   | ["w.mod", _, name, mode] =>
     let nm := bytesToString (unhexBytes name)
